@@ -1,0 +1,27 @@
+//go:build verif
+
+package v1
+
+// Contracts for the deductive checks in /verif (read by /verif/govc; comment-only, no code).
+
+//@ import types github.com/tendermint/tendermint/types
+//@ import sm github.com/tendermint/tendermint/state
+//@ import store github.com/tendermint/tendermint/store
+//@ import log github.com/tendermint/tendermint/libs/log
+
+//@ extern log.Logger.Error
+//@   assigns nothing
+// Blocks enter the FSM's pool only after types.BlockFromProto validated them (ValidateBasic).
+//@ func BcReactorFSM.FirstTwoBlocks
+//@   trusted
+//@   assigns nothing
+//@   ensures basic: result2 == nil ==> (result0 != nil && result1 != nil && result0.LastCommit != nil && result0.Header.Height >= 1 && result1.LastCommit != nil)
+
+// Block sync (v1): a block is stored and applied only after VerifyCommit (every signature) accepted the next block's
+// LastCommit for exactly this block's hash and part-set header at its height under the node's own validator set.
+// NOTE: v1 runs no ValidateBlock before storing; ApplyBlock validates (and panics on failure) after the block is saved.
+//@ func BlockchainReactor.processBlock
+//@   requires wf: bcR.state.Validators != nil && wfPowers(bcR.state.Validators) && wfCached(bcR.state.Validators)
+//@   atcall BlockStore.SaveBlock committed: commitVerified(bcR.state.Validators, bcR.initialState.ChainID, types.Block.Hash(arg1), arg2.total, arg2.hash, arg1.Header.Height, arg3)
+//@   atcall BlockStore.SaveBlock pair: arg1 == first && arg3 == second.LastCommit
+//@   atcall BlockExecutor.ApplyBlock same: arg3 == first && arg2.Hash == types.Block.Hash(first) && commitVerified(arg1.Validators, bcR.initialState.ChainID, arg2.Hash, arg2.PartSetHeader.Total, arg2.PartSetHeader.Hash, first.Header.Height, second.LastCommit)
